@@ -473,6 +473,11 @@ func (a *actor) do(st *Step, idx int, call, method, path string, hdr map[string]
 		rd = pr
 		go func() {
 			pw.Write(body[:len(body)/2])
+			if st.SlowBody == "cut" || st.SlowBody == "cutchunked" {
+				// the process breaks its upload off (and lives on): the connection is torn down with half the body sent
+				pw.CloseWithError(errors.New("upload broken off"))
+				return
+			}
 			select {
 			case <-a.h.latch(st.SlowBody):
 			case <-a.ctx.Done():
@@ -495,6 +500,9 @@ func (a *actor) do(st *Step, idx int, call, method, path string, hdr map[string]
 	if err != nil {
 		a.h.record(Event{Actor: a.id, Proc: a.procName, Kind: "return", Call: call, Step: idx, Tag: st.Tag, Err: "bad request: " + err.Error()})
 		return callResult{err: err}
+	}
+	if st.SlowBody == "cut" {
+		req.ContentLength = int64(len(body)) // announced in full (cutchunked: no announcement, chunked)
 	}
 	for k, v := range hdr {
 		req.Header[k] = []string{v} // no canonicalisation surprises: keys are given in canonical form
@@ -1014,14 +1022,40 @@ func (a *actor) exec(st *Step, idx int) bool {
 	case "cred.get":
 		hdr := map[string]string{}
 		switch {
-		case st.Token == "env" || st.Token == "":
+		case st.Token == "env" || st.Token == "" || strings.HasPrefix(st.Token, "near:"):
 			env := a.env
 			if a.id == "driver" {
 				a.h.ridMu.Lock()
 				env = a.h.lastRtEnv
 				a.h.ridMu.Unlock()
 			}
-			hdr["Authorization"] = env["AWS_CONTAINER_AUTHORIZATION_TOKEN"]
+			tok := env["AWS_CONTAINER_AUTHORIZATION_TOKEN"]
+			if strings.HasPrefix(st.Token, "near:") && tok != "" {
+				// NOT the instance token, but close to it: near:<upper|trunc|ext|flip|bearer>
+				switch st.Token[5:] {
+				case "upper":
+					if up := strings.ToUpper(tok); up != tok {
+						tok = up
+					} else {
+						tok += "A"
+					}
+				case "trunc":
+					tok = tok[:len(tok)-1]
+				case "ext":
+					tok += "0"
+				case "flip":
+					b := []byte(tok)
+					if b[len(b)-1] == '0' {
+						b[len(b)-1] = '1'
+					} else {
+						b[len(b)-1] = '0'
+					}
+					tok = string(b)
+				case "bearer":
+					tok = "Bearer " + tok
+				}
+			}
+			hdr["Authorization"] = tok
 		case st.Token == "wrong":
 			hdr["Authorization"] = "0f0e0d0c-aaaa-4bbb-8ccc-ddddeeeeffff"
 		case st.Token == "empty":
